@@ -188,20 +188,20 @@ one = Fn(SC, 'expand_args_for_single_token', ret='r',
 in_tokens = Fn(SC, 'expand_args_in_tokens', pre_rewrites=[SETTXT, Rw('types::Tokens', 'Tokens', required=False, rule='R0')],
     let_types={'buff': 'Vec<(usize, String)>'},
     hints={'loop-0-body-entry': 'lemma_in_b_push(buff@);', 'loop-1-body-entry': 'lemma_in_b_from_step(buff@, __I as int, buff@.len() as int);',
-           'loop-1-exit': 'lemma_in_b_all(buff@); assert forall|k: int| 0 <= k < old(tokens)@.len() && (old(tokens)@[k].0@ == "`"@ || old(tokens)@[k].0@ == "\'"@ || !spec_is_args_in_token(old(tokens)@[k].1@)) implies (#[trigger] tokens@[k]).1@ == old(tokens)@[k].1@ by { if in_b(buff@, k) { let m = choose|m: int| 0 <= m < buff@.len() && (#[trigger] buff@[m]).0 == k; } assert(!in_b_from(buff@, 0, buff@.len() as int, k)); } assert forall|k: int| 0 <= k < old(tokens)@.len() && !(old(tokens)@[k].0@ == "`"@ || old(tokens)@[k].0@ == "\'"@ || !spec_is_args_in_token(old(tokens)@[k].1@)) implies (#[trigger] tokens@[k]).1@ == args_expand(old(tokens)@[k].1@, strs(args@)) by { assert(in_b(buff@, k)); }'},
+           'loop-1-exit': 'lemma_in_b_all(buff@); assert forall|k: int| 0 <= k < old(tokens)@.len() && (old(tokens)@[k].0@ == "\'"@ || !spec_is_args_in_token(old(tokens)@[k].1@)) implies (#[trigger] tokens@[k]).1@ == old(tokens)@[k].1@ by { if in_b(buff@, k) { let m = choose|m: int| 0 <= m < buff@.len() && (#[trigger] buff@[m]).0 == k; } assert(!in_b_from(buff@, 0, buff@.len() as int, k)); } assert forall|k: int| 0 <= k < old(tokens)@.len() && !(old(tokens)@[k].0@ == "\'"@ || !spec_is_args_in_token(old(tokens)@[k].1@)) implies (#[trigger] tokens@[k]).1@ == args_expand(old(tokens)@[k].1@, strs(args@)) by { assert(in_b(buff@, k)); }'},
     requires=[('C05.pre.args_nonempty2', 'args@.len() >= 1')],
     ensures=[('C15+C16.args.quoted_words_untouched',
               'final(tokens)@.len() == old(tokens)@.len() && forall|k: int| 0 <= k < old(tokens)@.len() ==> (#[trigger] final(tokens)@[k]).0@ == old(tokens)@[k].0@ '
-              '&& ((old(tokens)@[k].0@ == "`"@ || old(tokens)@[k].0@ == "\'"@ || !spec_is_args_in_token(old(tokens)@[k].1@)) ==> final(tokens)@[k].1@ == old(tokens)@[k].1@) '
-              '&& (!(old(tokens)@[k].0@ == "`"@ || old(tokens)@[k].0@ == "\'"@ || !spec_is_args_in_token(old(tokens)@[k].1@)) ==> '
+              '&& ((old(tokens)@[k].0@ == "\'"@ || !spec_is_args_in_token(old(tokens)@[k].1@)) ==> final(tokens)@[k].1@ == old(tokens)@[k].1@) '
+              '&& (!(old(tokens)@[k].0@ == "\'"@ || !spec_is_args_in_token(old(tokens)@[k].1@)) ==> '
               '    final(tokens)@[k].1@ == args_expand(old(tokens)@[k].1@, strs(args@)))')],
     loops={
         0: Loop(invariant=[
             ('C15.inv.tokens.idx', 'idx == __I && tokens@ == old(tokens)@ && args@.len() >= 1'),
             ('C15.inv.tokens.buff', 'forall|m: int| 0 <= m < buff@.len() ==> (#[trigger] buff@[m]).0 < __I && (m + 1 < buff@.len() ==> buff@[m].0 < buff@[m + 1].0) '
-                                    '&& !(tokens@[buff@[m].0 as int].0@ == "`"@ || tokens@[buff@[m].0 as int].0@ == "\'"@ || !spec_is_args_in_token(tokens@[buff@[m].0 as int].1@)) '
+                                    '&& !(tokens@[buff@[m].0 as int].0@ == "\'"@ || !spec_is_args_in_token(tokens@[buff@[m].0 as int].1@)) '
                                     '&& buff@[m].1@ == args_expand(tokens@[buff@[m].0 as int].1@, strs(args@))'),
-            ('C15.inv.tokens.all', 'forall|k: int| 0 <= k < __I && !(tokens@[k].0@ == "`"@ || tokens@[k].0@ == "\'"@ || !spec_is_args_in_token(tokens@[k].1@)) ==> '
+            ('C15.inv.tokens.all', 'forall|k: int| 0 <= k < __I && !(tokens@[k].0@ == "\'"@ || !spec_is_args_in_token(tokens@[k].1@)) ==> '
                                    'in_b(buff@, k)'),
         ]),
         1: Loop(invariant=[
@@ -212,9 +212,9 @@ in_tokens = Fn(SC, 'expand_args_in_tokens', pre_rewrites=[SETTXT, Rw('types::Tok
             ('C15.inv.tokens.done', 'forall|k: int| 0 <= k < tokens@.len() ==> '
                                     '(in_b_from(buff@, __I as int, buff@.len() as int, k) ==> (#[trigger] tokens@[k]).1@ == args_expand(old(tokens)@[k].1@, strs(args@))) '
                                     '&& (!in_b_from(buff@, __I as int, buff@.len() as int, k) ==> tokens@[k].1@ == old(tokens)@[k].1@)'),
-            ('C15.inv.tokens.elig', 'forall|m: int| 0 <= m < buff@.len() ==> !(old(tokens)@[(#[trigger] buff@[m]).0 as int].0@ == "`"@ || old(tokens)@[buff@[m].0 as int].0@ == "\'"@ '
+            ('C15.inv.tokens.elig', 'forall|m: int| 0 <= m < buff@.len() ==> !(old(tokens)@[(#[trigger] buff@[m]).0 as int].0@ == "\'"@ '
                                     '|| !spec_is_args_in_token(old(tokens)@[buff@[m].0 as int].1@))'),
-            ('C15.inv.tokens.all2', 'forall|k: int| 0 <= k < old(tokens)@.len() && !(old(tokens)@[k].0@ == "`"@ || old(tokens)@[k].0@ == "\'"@ || !spec_is_args_in_token(old(tokens)@[k].1@)) ==> in_b(buff@, k)'),
+            ('C15.inv.tokens.all2', 'forall|k: int| 0 <= k < old(tokens)@.len() && !(old(tokens)@[k].0@ == "\'"@ || !spec_is_args_in_token(old(tokens)@[k].1@)) ==> in_b(buff@, k)'),
         ]),
     },
 )
